@@ -244,6 +244,11 @@ fn alphabet(n: usize, full: bool) -> Vec<Dev> {
         s.extra_attrs.push("#[strum_discriminants(strum(serialize_all = \"snake_case\"))]".into());
         true
     }));
+    d.push(dev("enum-level options split over two attributes: #[strum(serialize_all = ..)] #[strum(crate = ..)]", &["style", "crate2"], |s| {
+        s.serialize_all = Some("snake_case".into());
+        s.syntax.push("crate-attr-second".into());
+        true
+    }));
     d.push(dev("discriminants: variant pass-through message", &["dd"], |s| {
         s.extra_attrs.push("#[strum_discriminants(derive(STRUM::EnumMessage)STRUMCRATE)]".into());
         s.variants[0].extra_attrs.push("#[strum_discriminants(strum(message = \"dm\"))]".into());
@@ -392,6 +397,14 @@ pub fn render(p: &C19Program, cfg: &str, idx: usize) -> String {
         _ => ("strum", None),
     };
     spec.crate_path = crate_attr.clone();
+    if spec.syntax.iter().any(|x| x == "crate-attr-second") {
+        spec.syntax.retain(|x| x != "crate-attr-second");
+        if let Some(c) = &crate_attr {
+            // the enum-level options are split over two attributes and the crate path is in the second one
+            spec.crate_path = None;
+            spec.extra_attrs.insert(0, format!("#[strum(crate = \"{}\")]", c));
+        }
+    }
     let crate_tail = match &crate_attr {
         Some(c) => format!(", crate = \"{}\"", c),
         None => String::new(),
